@@ -1,7 +1,8 @@
 From Coq Require Import Extraction ExtrOcamlBasic NArith ZArith.
-From Storage Require Import Base.Bytes Lang.Unescape Lang.StrCompare.
+From Storage Require Import Base.Bytes Lang.Unescape Lang.StrCompare Lang.StrFilter.
 Extraction Language OCaml.
 Definition force_types : nat * N * Z := (O, 0%N, 0%Z).
 Extraction "c11_model.ml" force_types parse_zql_string parse_zql_string_legacy body_ok
   literal_min literal_full expressible_min expressible_full
-  cmp_query contains_query icontains_query in_query any_of all_of any_of_eq_seek ascending.
+  cmp_query contains_query icontains_query in_query any_of all_of any_of_eq_seek ascending
+  filter_query write_atom fmap.
